@@ -213,10 +213,21 @@ def r5(ctx):
     r1_sibling_footprints(ctx)
 
 
+def _more(name):
+    def run(ctx):
+        from . import more
+
+        getattr(more, name)(ctx)
+
+    run.__name__ = name
+    return run
+
+
 RULES = [
     ("C15.R5", "P1", r5, "every value of a Literal counts on every code path (sibling footprints)"),
     ("C15.R1", "P1", r1_union_spellings_one_path, "three union spellings, one path"),
     ("C15.R2", "P1", r2_normaliser_front, "strings first, Annotated unwrapped"),
     ("C15.R3", "P1", r3_generic_handlers_use_every_argument, "generic handlers use every argument"),
     ("C15.R4", "P1", r4_commutative_combinators, "commutative combinators compare without order"),
+    ("C15.R6", "P1", _more("hash_reads_what_eq_compares"), "hash consults only what equality compares"),
 ]
